@@ -4,12 +4,12 @@ import vf
 INV = ["AttachedIffEstablished", "RoutesOnlyWhileEstablished", "IdleClosed", "EstablishedOnlyAfterValidOpen"]
 PROPS = ["LeavingEstablished", "ErrorsAreNotified"]
 EXTRA_UPD = {"annAas4aggr", "annAas4path", "annAaggr", "annAunk", "annAcomm"}
-VALID_UPD = {"annA", "annAB", "annC6", "wdA", "wdAannB", "wdC6", "annD6wdC6", "annC6D6", "eor"}
+VALID_UPD = {"annA", "annAB", "annC6", "wdA", "wdAannB", "wdAannA", "wdC6", "annD6wdC6", "annC6D6", "eor"}
 AP_UPD = {"apA1A2", "apA1B2", "apWdA1", "apWdA2annB1", "apWdA1A2", "apWdA1B2", "apA0A1", "apWdA0"}
 BAD_UPD = {"wdLenBeyond", "attrLenBeyond", "attrLenShort", "originLen2", "nextHopLen3", "medLen5", "asPathTrunc", "pfxLen33",
-           "pfxLen129", "noOrigin", "noASPath", "noNextHop", "noAttrs", "nlriTrunc", "noNextHopMP", "mpNoOrigin", "mpNoASPath", "mpNH32short"}
+           "pfxLen129", "noOrigin", "noASPath", "noNextHop", "noAttrs", "nlriTrunc", "noNextHopMP", "mpNoOrigin", "mpNoASPath", "mpNH32short", "medLen5ext"}
 ALL_OPENS = {"ok", "okNoAS4", "okTrans", "okOddAP", "hold0", "hold3", "hold30", "hold1", "hold2", "badAS", "badAS4", "badASgoodAS4", "transNo4", "idZero", "idOurs",
-             "version3", "roleProv", "roleCust", "rolePeer"}
+             "version3", "roleProv", "roleCust", "rolePeer", "rolesCPP", "okAP3", "hold6"}
 GARBAGE = {"badMarker", "lenShort", "len18", "lenLong", "badType", "type0"}
 
 
